@@ -29,6 +29,10 @@ type FOp struct {
 	// Back: save the offset of the Back-th most recent acknowledged append
 	// instead of the latest (a rewind); 0 = latest.
 	Back int `json:"back,omitempty"`
+	// Ahead > 0: save a position Ahead beyond the largest offset of this
+	// database (the store serves as subscription store for a log kept
+	// elsewhere, or a consumer numbers its own positions).
+	Ahead int `json:"ahead,omitempty"`
 }
 
 type FCase struct {
@@ -201,6 +205,9 @@ func RunInProc(c *FCase) *vkit.Outcome {
 						}
 						skip--
 					}
+				}
+				if op.Ahead > 0 {
+					off = eventbus.Offset(strconv.FormatInt(maxPos+int64(op.Ahead), 10))
 				}
 				err := st.SaveOffset(ctx, op.Sub, off)
 				plan.Arm(false)
